@@ -1,15 +1,22 @@
 """Reference table for C18: what a *client* may do with server-initiated actions.
 
-State = which forwarding features the client has enabled itself so far (x11, agent, tcp).
+State = which forwarding features the client has enabled itself so far (x11, agent, tcp); tcp is the
+tuple of port forwards that are active (requested, granted, not cancelled since), named by the
+listening port the server reported for them.
 No paramiko imports; the harness feeds it the toggle history and asks what an action may yield.
 """
 
-TOGGLES = ("x11_ok", "x11_denied", "agent", "pf_ok", "pf_denied", "pf_cancel", "pf_cancel_refused")
+TOGGLES = ("x11_ok", "x11_denied", "agent", "pf_ok", "pf_denied", "pf_cancel", "pf_cancel_refused",
+           "pf0_ok", "pf0_cancel")
+
+# two forwards on one address: a fixed listening port, and "port 0" = the server picks the port and
+# reports it in its REQUEST_SUCCESS (RFC 4254 7.1); the latter is cancelled with the reported port
+PORT_FIXED, PORT_ALLOCATED = 4000, 4001
 
 # channel requests that ask the receiver to run a command / shell / subsystem / terminal
 RUN_REQUESTS = ("exec", "shell", "subsystem", "pty-req")
 
-INITIAL = (False, False, False)
+INITIAL = (False, False, ())
 
 
 def apply(state, toggle):
@@ -20,16 +27,20 @@ def apply(state, toggle):
         pass
     elif toggle == "agent":         # request_forward_agent (no reply is awaited)
         agent = True
-    elif toggle == "pf_ok":         # tcpip-forward answered with REQUEST_SUCCESS
-        tcp = True
+    elif toggle == "pf_ok":         # tcpip-forward (fixed port) answered with REQUEST_SUCCESS
+        tcp = tuple(sorted(set(tcp) | {PORT_FIXED}))
     elif toggle == "pf_denied":     # answered with REQUEST_FAILURE: nothing new was enabled
         pass
-    elif toggle == "pf_cancel":     # cancel_port_forward of the only forward ever requested
-        tcp = False
+    elif toggle == "pf_cancel":     # cancel_port_forward of the fixed-port forward
+        tcp = tuple(p for p in tcp if p != PORT_FIXED)
     elif toggle == "pf_cancel_refused":
         # the same call, but the server answers the cancel with REQUEST_FAILURE: what the client has
         # enabled is the client's decision - a peer cannot keep a cancelled feature switched on
-        tcp = False
+        tcp = tuple(p for p in tcp if p != PORT_FIXED)
+    elif toggle == "pf0_ok":        # tcpip-forward with port 0, server answers "allocated PORT_ALLOCATED"
+        tcp = tuple(sorted(set(tcp) | {PORT_ALLOCATED}))
+    elif toggle == "pf0_cancel":    # cancel_port_forward(address, PORT_ALLOCATED): the way to cancel that one
+        tcp = tuple(p for p in tcp if p != PORT_ALLOCATED)
     else:
         raise ValueError(toggle)
     return (x11, agent, tcp)
@@ -50,7 +61,7 @@ def may_accept_open(state, kind):
     if kind == "auth-agent@openssh.com":
         return agent
     if kind == "forwarded-tcpip":
-        return tcp
+        return bool(tcp)        # "while a port forward is active": at least one
     return False
 
 
